@@ -107,7 +107,11 @@ impl Property for C10 {
         (
             comp_strategy(),
             small_content_seq_strategy(),
-            prop::collection::vec((comp_strategy(), small_content_seq_strategy(), prop_oneof![3 => Just(0u8), 1 => 1u8..5]).prop_map(|(comp, contents, id_class)| ExtraPack { comp, contents, id_class }), 0..=2),
+            prop::collection::vec(
+                (comp_strategy(), small_content_seq_strategy(), prop_oneof![3 => Just(0u8), 1 => 1u8..5], prop_oneof![3 => Just(0u8), 1 => Just(1u8), 1 => Just(2u8)])
+                    .prop_map(|(comp, contents, id_class, place)| ExtraPack { comp, contents, id_class, place }),
+                0..=2,
+            ),
             prop::bool::weighted(0.2),
             dir_strategy(SizeClass::Small, SortMode::Sometimes, true, true),
             prop_oneof![Just(PrefixKind::Random), Just(PrefixKind::Text), Just(PrefixKind::Elf), Just(PrefixKind::JbkLookalike)],
@@ -119,7 +123,7 @@ impl Property for C10 {
     }
 
     fn required_classes(_tier: Tier) -> Vec<&'static str> {
-        vec!["form:onefile", "form:twofiles", "form:noconcat", "form:concat", "form:concat-of-concats", "form:prefix", "form:prefix+concat", "form:identity-first", "extra-packs:2", "prefix:JbkLookalike", "prefix:Elf"]
+        vec!["form:onefile", "form:twofiles", "form:noconcat", "form:concat", "form:concat-of-concats", "form:prefix", "form:prefix+concat", "form:identity-first", "form:prefix-external", "extra-place:1", "extra-place:2", "extra-packs:2", "prefix:JbkLookalike", "prefix:Elf"]
     }
 
     fn case_timeout_s(_tier: Tier) -> u64 {
@@ -220,8 +224,8 @@ impl Property for C10 {
             let out = pdir.join("prefixed.bin");
             std::fs::write(&out, &data).unwrap();
             for f in &of.files {
-                if f.starts_with("extra") {
-                    std::fs::copy(of.dir.join(f), pdir.join(f)).unwrap();
+                if f.contains("extra") {
+                    copy_rel(&of.dir, &pdir, f);
                 }
             }
             info.class("form:prefix");
@@ -235,7 +239,7 @@ impl Property for C10 {
             let idir = ctx.subdir("c10-identity");
             let mut inputs: Vec<PathBuf> = vec![tf.dir.join("a.jbk"), tf.dir.join("a.jbkc")];
             for f in &tf.files {
-                if f.starts_with("extra") {
+                if f.contains("extra") {
                     inputs.push(tf.dir.join(f));
                 }
             }
@@ -252,6 +256,33 @@ impl Property for C10 {
             std::fs::write(idir.join("a.jbkc"), bad).unwrap();
             evals += open_and_verify(&out, model, "identity-first")?;
             info.class("form:identity-first");
+        }
+        // 6. the packs that live in their own files are themselves embedded at the end of another
+        // file (the located file is opened like any other: header first, else the mirrored tail)
+        for (bi, name) in [(1usize, "twofiles"), (2usize, "noconcat")] {
+            let b = &builds[bi];
+            let edir = ctx.subdir(&format!("c10-prefix-external-{name}"));
+            for (k, f) in b.files.iter().enumerate() {
+                if f == "a.jbk" {
+                    copy_rel(&b.dir, &edir, f);
+                    continue;
+                }
+                let mut data = prefix_bytes(&case.prefix_kind, case.prefix_len as usize, case.seed ^ (k as u32 * 77 + 5));
+                data.extend(std::fs::read(b.dir.join(f)).unwrap());
+                let dst = edir.join(f);
+                if let Some(p) = dst.parent() {
+                    std::fs::create_dir_all(p).unwrap();
+                }
+                // a `..` placement names the same file from every sibling directory: leave that one as it is
+                if std::fs::canonicalize(b.dir.join(f)).ok() != std::fs::canonicalize(&dst).ok() {
+                    std::fs::write(&dst, &data).unwrap();
+                }
+            }
+            evals += open_and_verify(&edir.join("a.jbk"), model, &format!("prefix-external-{name}"))?;
+            info.class("form:prefix-external");
+        }
+        for e in &case.extra {
+            info.class(format!("extra-place:{}", e.place % 3));
         }
         info.class(format!("extra-packs:{}", case.extra.len()));
         info.class(format!("comp:{}", case.comp.name()));
